@@ -129,7 +129,10 @@ type Case struct {
 	Seq     string     `json:"seq"`
 	OnDup   bool       `json:"ondup"`
 	Qual    bool       `json:"qual"` // db.t instead of t
-	SQL     string     `json:"sql,omitempty"`
+	// PCol (own-key linked child only): the statement also sets the column that is named
+	// like the PARENT's sharding column, to a value that lives in another sub-table
+	PCol bool   `json:"pcol,omitempty"`
+	SQL  string `json:"sql,omitempty"`
 	// History: statements planned before this one on the SAME router (history family)
 	History []string `json:"history,omitempty"`
 }
@@ -166,8 +169,13 @@ func buildSQL(b *rig.Built, c *Case, cls map[string]class) string {
 	case "sid_null", "sid_nextval":
 		cols = append(cols, "sid")
 	}
+	if c.PCol && b.ParentKeyCol != "" {
+		cols = append([]string{b.ParentKeyCol}, cols...)
+	}
 	val := func(row int, col string) string {
 		switch col {
+		case b.ParentKeyCol:
+			return parentColValue(b, cls, c.Classes[row])
 		case key:
 			return cls[c.Classes[row]].SQL
 		case "k":
@@ -220,6 +228,22 @@ func buildSQL(b *rig.Built, c *Case, cls map[string]class) string {
 		sb.WriteString(" ON DUPLICATE KEY UPDATE v = 'dup'")
 	}
 	return sb.String()
+}
+
+// parentColValue picks, for a row whose own sharding value has class keyClass, the value
+// of the column named like the parent's key: a routable literal that lives in ANOTHER
+// sub-table than the row (if the layout has one).
+func parentColValue(b *rig.Built, cls map[string]class, keyClass string) string {
+	own, ownOK := rig.Loc{}, false
+	if cl := cls[keyClass]; cl.Kind == kLit {
+		own, ownOK = route(b, cl.Val)
+	}
+	for _, n := range []string{"boundary_hi", "quoted", "boundary", "lit"} {
+		if l, ok := route(b, cls[n].Val); ok && (!ownOK || l != own) {
+			return cls[n].SQL
+		}
+	}
+	return cls["lit"].SQL
 }
 
 // ------------------------------------------------------------------ oracle
@@ -278,6 +302,7 @@ func evaluate(b *rig.Built, cls map[string]class, c *Case) (res result) {
 	feat := map[string]string{"form": c.Form, "rule": b.Layout.Rule, "seq": c.Seq,
 		"stmt": map[bool]string{false: "insert", true: "replace"}[c.Replace],
 		"rows": strconv.Itoa(len(c.Classes)), "linked": strconv.FormatBool(b.Layout.Linked),
+		"own_key": strconv.FormatBool(b.Layout.OwnKey), "pcol": strconv.FormatBool(c.PCol),
 		"valueclass": "-", "effect": "-"}
 	fail := func(effect, class, msg string) result {
 		feat["effect"] = effect
@@ -618,6 +643,15 @@ func layouts(r *ev.Run) []rig.Layout {
 			}
 		}
 	}
+	// linked children whose sharding column is named differently from the parent's
+	for _, rt := range rig.RuleTypes {
+		for _, sh := range shapes {
+			if r.Quick() && sh != [2]int{2, 2} && sh != [2]int{3, 1} {
+				continue
+			}
+			ls = append(ls, rig.Layout{Rule: rt, Linked: true, OwnKey: true, Slices: sh[0], Per: sh[1]})
+		}
+	}
 	for _, sh := range shapes {
 		ls = append(ls, rig.Layout{Rule: models.ShardGlobal, Slices: sh[0], Per: sh[1]})
 	}
@@ -630,11 +664,11 @@ func layouts(r *ev.Run) []rig.Layout {
 	return ok
 }
 
-// options: replace, perm, seq, ondup, qual — all vectors with at most k deviations from
+// options: replace, perm, seq, ondup, qual, pcol — all vectors with at most k deviations from
 // (INSERT, natural column order, no sequence, no ON DUPLICATE, unqualified).
 func options(k int) [][]int {
 	var out [][]int
-	enum.Deviations([]int{2, len(perms), len(seqModes), 2, 2}, k, func(idx []int) {
+	enum.Deviations([]int{2, len(perms), len(seqModes), 2, 2, 2}, k, func(idx []int) {
 		if idx[0] == 1 && idx[3] == 1 {
 			return // REPLACE ... ON DUPLICATE KEY UPDATE is not SQL
 		}
@@ -692,15 +726,32 @@ func runLayout(r *ev.Run, l rig.Layout, fams []family) {
 			accepted++
 		}
 		if res.v == nil && res.key != "" && c.Perm == 0 && c.Seq == "none" && !c.OnDup && !c.Qual && !c.Replace {
-			r.Distinct("nontrivial", l.String()+"|"+c.Form+"|"+strings.Join(c.Classes, ",")+"|"+res.key)
+			r.Distinct("nontrivial", l.String()+"|"+c.Form+"|"+fmt.Sprint(c.PCol)+"|"+strings.Join(c.Classes, ",")+"|"+res.key)
 		}
 		if cj := strings.Join(c.Classes, ","); c.Perm == 0 && c.Seq == "none" && !c.Qual && !c.Replace && (cj == "lit,quoted" || cj == "boundary,null" || cj == "lit,boundary_hi,quoted" || (c.Form == "set" && cj == "quoted")) {
 			r.Sample(map[string]interface{}{"layout": l.String(), "sql": c.SQL, "outcome": strOr(res.key, "violation")})
 		}
 	}
 	for _, f := range fams {
-		for _, o := range f.opts {
-			base := Case{Layout: l, Form: f.form, Replace: o[0] == 1, Perm: o[1], Seq: seqModes[o[2]], OnDup: o[3] == 1, Qual: o[4] == 1}
+		opts := f.opts
+		if l.OwnKey && len(opts) > 1 {
+			// own-key child: REPLACE together with the parent-named column as well
+			extra := []int{1, 0, 0, 0, 0, 1}
+			have := false
+			for _, o := range opts {
+				if fmt.Sprint(o) == fmt.Sprint(extra) {
+					have = true
+				}
+			}
+			if !have {
+				opts = append(append([][]int(nil), opts...), extra)
+			}
+		}
+		for _, o := range opts {
+			base := Case{Layout: l, Form: f.form, Replace: o[0] == 1, Perm: o[1], Seq: seqModes[o[2]], OnDup: o[3] == 1, Qual: o[4] == 1, PCol: o[5] == 1}
+			if base.PCol && !l.OwnKey {
+				continue // only the own-key child table has a parent-named column
+			}
 			enum.Seqs(len(cs), f.rows, f.rows, func(seq []int) {
 				lits := 0
 				for _, x := range seq {
@@ -802,7 +853,7 @@ func main() {
 	var bound string
 	if r.Quick() {
 		fams = []family{{"values", 1, false, o1}, {"values", 2, false, o1}, {"set", 1, false, o1}, {"values", 3, true, o0}}
-		bound = fmt.Sprintf("VALUES with 1-2 rows and SET: all sharding-value class vectors x %d option vectors (<=1 deviation in replace/column order (6)/sequence mode (6)/on-duplicate/db-qualified); VALUES with 3 rows: all class vectors with at least one plain literal row, default options", len(o1))
+		bound = fmt.Sprintf("VALUES with 1-2 rows and SET: all sharding-value class vectors x %d option vectors (<=1 deviation in replace/column order (6)/sequence mode (6)/on-duplicate/db-qualified/parent-named column set (own-key children; there also with REPLACE)); VALUES with 3 rows: all class vectors with at least one plain literal row, default options", len(o1))
 	} else {
 		fams = []family{{"values", 1, false, o2}, {"values", 2, false, o2}, {"set", 1, false, o2}, {"values", 3, false, o1}}
 		bound = fmt.Sprintf("VALUES with 1-2 rows and SET: all sharding-value class vectors x %d option vectors (<=2 deviations in replace/column order (6)/sequence mode (6)/on-duplicate/db-qualified); VALUES with 3 rows: all class vectors x %d option vectors (<=1 deviation)", len(o2), len(o1))
@@ -832,7 +883,7 @@ func main() {
 	r.Set("history_layouts", len(hls))
 	r.Set("history_bound", fmt.Sprintf("%d layouts (11 rule types, own table and linked child; shapes %s): a subject S (INSERT VALUES and INSERT SET with every sharding-value class, 2- and 3-row VALUES, REPLACE, the point lookup of every routable literal class, full scan, NOT BETWEEN, BETWEEN, IN, NOT IN, range, OR, UPDATE, DELETE, join, global-table INSERT/UPDATE) is planned after every prefix of 1-2 distinct statements of an 18-statement pool (INSERT VALUES 1 and 3 rows, INSERT SET, INSERT into the parent/child table, global INSERT/UPDATE, NOT BETWEEN with adjacent and with far-apart bounds, BETWEEN, IN, NOT IN, range, OR, full scan, UPDATE, DELETE, join) on the SAME router; the subjects follow one another on that router, rotated per prefix", len(hls), map[bool]string{true: "2x2, plus 3x1 for range/date rules (linked: 2x2)", false: "1x2 2x1 2x2 3x1 1x4 4x1"}[r.Quick()]))
 	r.Set("layouts", len(ls))
-	r.Set("bound", fmt.Sprintf("%d layouts (11 rule types x {own table, linked child} + global; slices x tables-per-slice shapes: %s); per layout: %s; plus one point SELECT per routable literal class", len(ls), map[bool]string{true: "1x1 1x2 2x1 2x2 3x1 1x4 4x1 (linked children: 1x2 2x2 3x1)", false: "all of 1-4 x 1-4"}[r.Quick()], bound))
+	r.Set("bound", fmt.Sprintf("%d layouts (11 rule types x {own table, linked child with the parent key name, linked child with its own key name} + global; slices x tables-per-slice shapes: %s); per layout: %s; plus one point SELECT per routable literal class", len(ls), map[bool]string{true: "1x1 1x2 2x1 2x2 3x1 1x4 4x1 (linked children: 1x2 2x2 3x1; own-key children: 2x2 3x1)", false: "all of 1-4 x 1-4"}[r.Quick()], bound))
 	r.Set("rule", "every statement of the bounded universe is enumerated (no sampling). distinct_nontrivial counts distinct (layout, form, value-class vector, outcome) with default options where the outcome is either a verified placement of every row in its physical table or a rejection that the oracle demanded (a row with an unroutable sharding value), plus distinct (layout, class) point lookups that were pruned to exactly the table of the inserted row, plus distinct (layout, prefix, subject) of the history family where the subject was accepted after the prefix and its plan was identical to its plan on a fresh router")
 	r.Assume("Rule.FindTableIndex is the reference for where a sharding value lives (its agreement with Mycat / the rule definitions is the subject of C07-C09)")
 	r.Assume("a panic inside BuildPlan is recovered by handleQuery and therefore counts as a rejection")
